@@ -68,6 +68,11 @@ def rule_own(env, shared):
                 for x in subterms(e.args[0]):
                     if x[0] == "call" and x[1] == "ptr_add":
                         off = unref(x[2][1])
+                # `for i in left..N { .. ptr.add(i).read() .. }`
+                from guards import range_elem
+                re_ = range_elem(off) if off is not None else None
+                if re_ is not None and m.canon(re_[1]) == m.canon(r["len_term"]) and re_[0][0] == "param":
+                    okk = True
                 # the closure parameter of a map over Range{left, N}
                 if b.is_closure and _is_clarg(off, 2):
                     pb = F.bodies[b.parent]
@@ -192,6 +197,8 @@ def rule_own(env, shared):
                 p2 = ("param", 2)
                 uses = [x for x in subterms(rt) if x == p2]
                 arith2 = False
+                from r_ovf import ALLOC_SIZED
+                rt = rewrite(rt, lambda x: ("const", "allocation-hint") if (x[0] == "ret" and x[1] in ALLOC_SIZED) else None)
                 for x in subterms(rt):
                     if x[0] == "bin" and x[1] in ("Add", "Sub", "Mul") and (p2 in (unref(x[2]), unref(x[3]))):
                         arith2 = True
@@ -360,6 +367,29 @@ def rule_own(env, shared):
     return out
 
 
+def _field_load_site(b, op, vadt, fidx, depth=0):
+    """(block, statement index) of the statement that loads field fidx of the view from `self` into the local that
+    reaches operand op through plain copies; None if the operand is not such a load"""
+    if op["k"] not in ("copy", "move") or depth > 4:
+        return None
+    pl = op["place"]
+    if pl["p"]:
+        return None
+    defs = [d for d in b.defs().get(pl["l"], []) if not b.blocks[d[0]]["cleanup"]]
+    if len(defs) != 1 or defs[0][2] != "assign":
+        return None
+    bb, si, kind, rv = defs[0]
+    if rv["k"] == "use" and rv["op"]["k"] in ("copy", "move"):
+        src = rv["op"]["place"]
+        if src["p"] and src["p"][-1]["k"] == "field" and src["p"][-1].get("adt") == vadt and src["p"][-1]["i"] == fidx:
+            return (bb, si)
+        if not src["p"]:
+            return _field_load_site(b, rv["op"], vadt, fidx, depth + 1)
+    if rv["k"] == "cast":
+        return _field_load_site(b, rv["op"], vadt, fidx, depth + 1)
+    return None
+
+
 def rule_view(env, shared):
     """OWN.view: an owning view {ptr, len} over reserved elements yields each element once and drops the rest:
     next reads *ptr only under len != 0 and then advances ptr by one and decrements len; len()/size_hint report len;
@@ -396,29 +426,43 @@ def rule_view(env, shared):
                 fs = block_facts(ev, ctx, bi)
                 if not any(f[0] == "ne" and len(f) == 3 and isf(f[1], L) and f[2] == ("int", 0) for f in fs):
                     good, why = False, "the read is not guarded by len != 0"
-                # writers after the read
+                # the two field updates (ptr += 1, len -= 1), in either order relative to the read
                 wp = wl = None
                 for bj, blk in enumerate(nb.blocks):
                     if blk["cleanup"]:
                         continue
-                    for s2 in blk["stmts"]:
+                    for sj, s2 in enumerate(blk["stmts"]):
                         if s2["k"] == "assign" and s2["place"]["p"] and s2["place"]["p"][-1]["k"] == "field" \
                                 and s2["place"]["p"][-1].get("adt") == vadt:
                             fi = s2["place"]["p"][-1]["i"]
                             v = unref(ev.rvalue(ctx, s2["rv"]))
                             if fi == P:
                                 okp = v[0] == "call" and v[1] == "ptr_add" and isf(v[2][0], P) and unref(v[2][1]) == ("int", 1)
-                                wp = (bj, okp)
+                                wp = (bj, okp and wp is None, sj)
                             elif fi == L:
                                 okl = v[0] == "bin" and v[1] == "Sub" and isf(v[2], L) and unref(v[3]) == ("int", 1)
-                                wl = (bj, okl)
+                                wl = (bj, okl and wl is None, sj)
                 if good and not (wp and wp[1] and wl and wl[1]):
-                    good, why = False, "after the read the view is not advanced by exactly one element (ptr+1, len-1)"
+                    good, why = False, "the view is not advanced by exactly one element (one ptr+1, one len-1) per call"
                 if good:
-                    # both updates on every path from the read to the return
-                    for (wb, _) in (wp, wl):
-                        if wb != bi and nb.paths_avoiding(bi, set(nb.exits()), {wb}):
+                    # fields behind `&mut self` are read flow-insensitively by the term engine: the pointer value that is
+                    # read from must have been loaded from the field *before* the field is advanced
+                    ls = _field_load_site(nb, t["args"][0], vadt, P)
+                    if ls is None:
+                        good, why = False, "cannot find where the pointer that is read from is loaded from the view"
+                    else:
+                        lb, lsi = ls
+                        before = (lb == wp[0] and lsi < wp[2]) or (lb != wp[0] and nb.dominates(lb, wp[0]))
+                        if not before:
+                            good, why = False, "the element is read through the pointer field after the field was advanced"
+                if good:
+                    # both updates happen on every path on which the read happens
+                    for (wb, _, _) in (wp, wl):
+                        if wb != bi and not nb.dominates(wb, bi) and nb.paths_avoiding(bi, set(nb.exits()), {wb}):
                             good, why = False, "an update of the view can be skipped after the read"
+                        fsw = block_facts(ev, ctx, wb)
+                        if not any(f[0] == "ne" and len(f) == 3 and isf(f[1], L) and f[2] == ("int", 0) for f in fsw):
+                            good, why = False, "the view is advanced without the guard len != 0"
             out.append(Ob("OWN.view", k, "ok" if good else "viol", nb.file_line(),
                           "reads *ptr under len != 0, then ptr += 1 and len -= 1 on every path" if good else
                           "next of the owning view %s is not a single guarded read followed by one step: %s — an element is "
